@@ -26,8 +26,11 @@ CONSTANTS OmIdx,       \* subset of DOMAIN OmTab
           HMix,        \* TRUE: one H choice per (om, curv), picked round-robin from HIdx
           ZIdx,        \* subset of DOMAIN ZTab
           ChainLen,    \* copy chains of length 1..ChainLen
-          Kinds,       \* array-like kinds of the dispatch machine
+          Quants,      \* quantities of the dispatch machine (subset of CTwoArg \cup COneArg; shards the export)
+          Dts,         \* ndarray element types (subset of the entries of DtAll)
+          Lays,        \* ndarray layouts (subset of the entries of LayAll, plus "zerod")
           MaxLen,      \* array lengths 1..MaxLen
+          Pairing,     \* "full": every pair of representations; "cover": the covering design below
           DoExport,
           Deviate      \* TRUE: the mechanisms deviate (self-test of the refinement invariants)
 
@@ -74,7 +77,7 @@ ZTab == << <<0, 1>>, <<1, 8>>, <<1, 4>>, <<1, 2>>, <<9, 16>>, <<3, 4>>, <<1, 1>>
            <<33, 16>>, <<3, 1>>, <<4, 1>>, <<5, 1>>, <<1, 10>>, <<7, 10>>, <<21, 10>> >>
 
 NoArgs == [H0 |-> CNone, h |-> CNone, flat |-> TRUE, om |-> CNone, ol |-> CNone, ok |-> CNone]
-NoShape == [kind |-> "absent", len |-> 0]
+NoShape == CAbsent
 NoDsp == [q |-> "", sa |-> NoShape, sb |-> NoShape]
 NoMech == [pc |-> "idle", branch |-> "", n |-> 0, i |-> 0, pairs |-> <<>>]
 
@@ -145,28 +148,78 @@ CopyAct ==
     /\ UNCHANGED <<phase, args, zp, dsp, mech>>
 
 \* ---- dispatch machine ---------------------------------------------------------------
-Shapes == {[kind |-> "scalar", len |-> 0]} \cup {[kind |-> k, len |-> n] : k \in Kinds, n \in 1..MaxLen}
+\* the representations, in a fixed order (the covering design cycles through them by index)
+DtAll  == <<"f8", "f4", "i8", "i4", ">f8", ">f4", ">i8">>
+LayAll == <<"contig", "strided", "reversed", "f2d">>
+DtSeq  == SelectSeq(DtAll, LAMBDA d : d \in Dts)
+LaySeq == SelectSeq(LayAll, LAMBDA l : l \in Lays)
+ScalarReps == << CRep("pyfloat", "float", "na", 0), CRep("pyint", "int", "na", 0),
+                 CRep("npscalar", "f8", "na", 0), CRep("npscalar", "f4", "na", 0), CRep("npscalar", "i8", "na", 0) >>
+ZeroReps   == IF "zerod" \in Lays THEN [k \in 1..Len(DtSeq) |-> CRep("ndarray", DtSeq[k], "zerod", 0)] ELSE <<>>
+SeqReps(n) == << CRep("list", "float", "na", n), CRep("list", "int", "na", n),
+                 CRep("tuple", "float", "na", n), CRep("tuple", "int", "na", n) >>
+NdReps(n, lays) == [k \in 1..(Len(DtSeq) * Len(lays)) |->
+                       CRep("ndarray", DtSeq[((k - 1) % Len(DtSeq)) + 1], lays[((k - 1) \div Len(DtSeq)) + 1], n)]
+Lay1D == SelectSeq(LaySeq, LAMBDA l : l # "f2d")
+ArrReps1D(n) == SeqReps(n) \o NdReps(n, Lay1D)                            \* one-dimensional, length n
+ArrReps(n)   == SeqReps(n) \o NdReps(n, LaySeq)
+RECURSIVE ArrUpTo(_)
+ArrUpTo(n) == IF n = 0 THEN <<>> ELSE ArrUpTo(n - 1) \o ArrReps(n)
+RepSeq == ScalarReps \o ZeroReps \o ArrUpTo(MaxLen)
+RepSet == VRange(RepSeq)
+
+\* a 2-d argument is paired with a scalar, a 0-d array or a 2-d array of the same shape only (the property's
+\* quantifier is over one-dimensional arguments; what a 2-d / 1-d mixture should do is not stated)
+Compatible(sa, sb) ==
+    /\ CIs2D(sa) => (CIsScalarRep(sb) \/ CIsZeroD(sb) \/ (CIs2D(sb) /\ sb.len = sa.len))
+    /\ CIs2D(sb) => (CIsScalarRep(sa) \/ CIsZeroD(sa) \/ (CIs2D(sa) /\ sa.len = sb.len))
+
+\* covering design: every (quantity, argument position, representation) meets a scalar partner, an array partner
+\* of matching length and - every third time - an array partner of another length; the partners cycle through
+\* all scalar / all one-dimensional representations with the index of the focus and of the quantity
+QSeq == <<"Dc", "Dm", "Da", "Dl", "sigmacritinv", "Ez_inverse", "dV", "distmod">>
+QIdx(q) == CHOOSE i \in 1..Len(QSeq) : QSeq[i] = q
+Partners(k, qi) ==
+    LET r  == RepSeq[k]
+        n  == IF CIsScalarRep(r) \/ CIsZeroD(r) THEN ((k + qi) % MaxLen) + 1 ELSE r.len
+        a1 == ArrReps1D(n)
+        sc == ScalarReps[((k + qi) % Len(ScalarReps)) + 1]
+        ar == IF CIs2D(r) THEN CRep("ndarray", DtSeq[((k + qi) % Len(DtSeq)) + 1], "f2d", r.len)
+              ELSE a1[((3 * k + qi) % Len(a1)) + 1]
+        mm == CRep("ndarray", "f8", "contig", (n % MaxLen) + 1)
+    IN {sc, ar} \cup (IF ~CIsScalarRep(r) /\ ~CIsZeroD(r) /\ ~CIs2D(r) /\ MaxLen > 1 /\ (k + qi) % 3 = 0 THEN {mm} ELSE {})
 
 ChooseQ ==
     /\ phase = "start"
-    /\ \E q \in CTwoArg \cup COneArg : dsp' = [dsp EXCEPT !.q = q]
+    /\ \E q \in Quants : dsp' = [dsp EXCEPT !.q = q]
     /\ phase' = "q" /\ UNCHANGED <<args, zp, objs, chain, mech>>
 
+\* first level: the focus representation (index k) and, for two-argument quantities, its position
 ChooseSA ==
     /\ phase = "q"
-    /\ \E s \in Shapes : dsp' = [dsp EXCEPT !.sa = s]
-    /\ phase' = "sa" /\ UNCHANGED <<args, zp, objs, chain, mech>>
+    /\ \E k \in 1..Len(RepSeq) :
+          \/ dsp' = [dsp EXCEPT !.sa = RepSeq[k]] /\ mech' = [mech EXCEPT !.i = k, !.n = 1]
+          \/ Pairing = "cover" /\ dsp.q \in CTwoArg /\ dsp' = [dsp EXCEPT !.sb = RepSeq[k]] /\ mech' = [mech EXCEPT !.i = k, !.n = 2]
+    /\ phase' = "sa" /\ UNCHANGED <<args, zp, objs, chain>>
 
 ChooseSB ==
     /\ phase = "sa"
-    /\ IF dsp.q \in COneArg THEN dsp' = dsp ELSE \E s \in Shapes : dsp' = [dsp EXCEPT !.sb = s]
+    /\ IF dsp.q \in COneArg THEN dsp' = dsp
+       ELSE IF Pairing = "cover"
+            THEN \E s \in Partners(mech.i, QIdx(dsp.q)) :
+                    dsp' = IF mech.n = 1 THEN [dsp EXCEPT !.sb = s] ELSE [dsp EXCEPT !.sa = s]
+            ELSE \E s \in RepSet : Compatible(dsp.sa, s) /\ dsp' = [dsp EXCEPT !.sb = s]
     /\ phase' = "shaped" /\ mech' = [NoMech EXCEPT !.pc = "classify"]
     /\ UNCHANGED <<args, zp, objs, chain>>
 
-\* cosmology.py: the isscalar() ladder
+\* cosmology.py: the isscalar() ladder (numpy.isscalar is False for lists, tuples and every ndarray, 0-d included)
+MIsArr(s) == ~CIsScalarRep(s)
+\* _as_c_order = atleast_1d(asarray(f8, C order)): len() and PyArray_SIZE of the converted argument
+MLen(s)  == IF CIsZeroD(s) THEN 1 ELSE IF CIs2D(s) THEN 2 ELSE s.len
+MSize(s) == IF CIsZeroD(s) THEN 1 ELSE IF CIs2D(s) THEN 2 * s.len ELSE s.len
 Classify ==
     /\ phase = "shaped" /\ mech.pc = "classify"
-    /\ LET sa == CIsArr(dsp.sa)  sb == CIsArr(dsp.sb)
+    /\ LET sa == MIsArr(dsp.sa)  sb == MIsArr(dsp.sb)
            br == IF dsp.q \in COneArg THEN (IF sa THEN "vec" ELSE "scalar")
                  ELSE IF ~sa /\ ~sb THEN "scalar" ELSE IF sa /\ ~sb THEN "vec1" ELSE IF ~sa /\ sb THEN "vec2" ELSE "2vec"
        IN mech' = [mech EXCEPT !.branch = br, !.pc = IF br = "scalar" THEN "call" ELSE "convert"]
@@ -175,17 +228,17 @@ Classify ==
 \* _as_c_order on the array argument(s); the length test exists on the 2vec branch only
 Convert ==
     /\ mech.pc = "convert"
-    /\ mech' = IF mech.branch = "2vec" /\ dsp.sa.len # dsp.sb.len /\ ~Deviate      \* (deviating variant: no length test)
+    /\ mech' = IF mech.branch = "2vec" /\ MLen(dsp.sa) # MLen(dsp.sb) /\ ~Deviate      \* (deviating variant: no length test)
                THEN [mech EXCEPT !.pc = "raised"]
                ELSE [mech EXCEPT !.pc = "loop", !.i = 1,
-                                 !.n = IF mech.branch = "vec2" THEN dsp.sb.len ELSE dsp.sa.len]   \* PyArray_SIZE of the first array
+                                 !.n = IF mech.branch = "vec2" THEN MSize(dsp.sb) ELSE MSize(dsp.sa)]   \* PyArray_SIZE of the first array
     /\ UNCHANGED <<phase, args, zp, objs, chain, dsp>>
 
-\* cosmolib_pywrap.c: for (i=0; i<n; i++) res[i] = f(zmin[i] | zmin, zmax[i] | zmax)
+\* cosmolib_pywrap.c: for (i=0; i<n; i++) res[i] = f(zmin[i] | zmin, zmax[i] | zmax) on the C-ordered copies
 Loop ==
     /\ mech.pc = "loop" /\ mech.i <= mech.n
-    /\ LET ia == IF mech.branch \in {"vec", "vec1", "2vec"} THEN mech.i ELSE 0
-           ib == IF mech.branch \in {"vec2", "2vec"} THEN mech.i ELSE 0
+    /\ LET ia == IF mech.branch \in {"vec", "vec1", "2vec"} THEN CIdx(dsp.sa, mech.i) ELSE 0
+           ib == IF mech.branch \in {"vec2", "2vec"} THEN CIdx(dsp.sb, mech.i) ELSE 0
        IN mech' = [mech EXCEPT !.pairs = Append(@, <<ia, ib>>), !.i = @ + 1]
     /\ UNCHANGED <<phase, args, zp, objs, chain, dsp>>
 
@@ -231,11 +284,16 @@ MechNormRefines == HaveArgs => \E k \in DOMAIN CNormalise(args) : CNormalise(arg
 \* copies: every object of the graph reports what the root reports
 MechCopyRefines == phase = "obj" => \A i \in DOMAIN objs : objs[i].rep = objs[1].rep
 
-\* dispatch: the code's ladder and loop compute CDispatch
+\* dispatch: the code's ladder and loop produce an outcome the property allows
 MechDispatchRefines ==
-    /\ mech.pc \in {"array", "scalar"} => [kind |-> mech.pc, pairs |-> mech.pairs] = CDispatch(dsp.sa, dsp.sb)
-    /\ mech.pc = "raised" => CDispatch(dsp.sa, dsp.sb).kind = "rejected"
-    /\ (phase = "shaped" /\ CDispatch(dsp.sa, dsp.sb).kind = "rejected") => mech.pc \in {"classify", "convert", "raised"}
+    LET A == CDispatchSet(dsp.sa, dsp.sb) IN
+    /\ mech.pc \in {"array", "scalar"} => [kind |-> mech.pc, pairs |-> mech.pairs] \in A
+    /\ mech.pc = "raised" => \E e \in A : e.kind = "rejected"
+    /\ (phase = "shaped" /\ \A e \in A : e.kind = "rejected") => mech.pc \in {"classify", "convert", "raised"}
+\* the enumeration is well formed (lattice sanity of the representation space)
+RepsSound == phase = "shaped" =>
+    /\ dsp.sa \in RepSet /\ (dsp.q \in CTwoArg => dsp.sb \in RepSet) /\ (dsp.q \in COneArg => dsp.sb = CAbsent)
+    /\ Compatible(dsp.sa, dsp.sb) /\ CDispatchSet(dsp.sa, dsp.sb) # {}
 
 \* every physical grid cosmology has a positive integrand at every grid redshift (lattice sanity)
 E2Positive == phase = "z" =>
@@ -262,5 +320,5 @@ ExportCopy     == (DoExport /\ phase = "obj" /\ chain # <<>>) =>
                         PrintT(<<"CASE", ToJson([t |-> "copy", args |-> args, chain |-> chain])>>)
 ExportDispatch == (DoExport /\ phase = "shaped") =>
                         PrintT(<<"CASE", ToJson([t |-> "dispatch", q |-> dsp.q, sa |-> dsp.sa, sb |-> dsp.sb,
-                                                  expect |-> CDispatch(dsp.sa, dsp.sb)])>>)
+                                                  allowed |-> CDispatchSet(dsp.sa, dsp.sb)])>>)
 =============================================================================
